@@ -340,6 +340,29 @@ func (c *SpecCtx) quant(n *EQuant) (Val, types.Type) {
 	if n.All {
 		q = "forall"
 	}
+	if len(n.Trig) > 0 {
+		var pats []string
+		for _, set := range n.Trig {
+			var ts []string
+			for _, te := range set {
+				tv, _ := cc.eval(te)
+				switch v := tv.(type) {
+				case Sc:
+					ts = append(ts, v.T)
+				case SliceV:
+					ts = append(ts, v.Arr)
+				case AddrV:
+					ts = append(ts, v.Addr)
+				case IfaceV:
+					ts = append(ts, v.Ref)
+				default:
+					c.fail("unsupported trigger term")
+				}
+			}
+			pats = append(pats, ":pattern ("+strings.Join(ts, " ")+")")
+		}
+		return B(fmt.Sprintf("(%s (%s) (! %s %s))", q, strings.Join(binders, " "), body.T, strings.Join(pats, " "))), tBool
+	}
 	return B(fmt.Sprintf("(%s (%s) %s)", q, strings.Join(binders, " "), body.T)), tBool
 }
 
